@@ -50,10 +50,11 @@ const (
 	FTickIntr  // rt.Interrupt(v) from the tick hook at VM tick T (position is a tick, not a probe)
 	FDepth     // call-depth limit (position unused; Arg = limit)
 	FForeign   // panic("foreign") - must reach the host untouched
+	FAsyncIntr // a second goroutine (simulated watchdog) calls rt.Interrupt(v) at VM tick T; Limit=2: two watchdogs in a row
 	nFaultKinds
 )
 
-var faultNames = [...]string{"none", "throw-prim", "throw-error", "throw-exception", "goerr", "intr", "tick-intr", "depth", "foreign"}
+var faultNames = [...]string{"none", "throw-prim", "throw-error", "throw-exception", "goerr", "intr", "tick-intr", "depth", "foreign", "async-intr"}
 
 type Fault struct {
 	Kind  int
@@ -66,13 +67,15 @@ func (f Fault) String() string {
 	switch f.Kind {
 	case FDepth:
 		return fmt.Sprintf("call#%d depth-limit=%d", f.Call, f.Limit)
-	case FTickIntr:
-		return fmt.Sprintf("call#%d %s@tick%d", f.Call, faultNames[f.Kind], f.At)
+	case FTickIntr, FAsyncIntr:
+		return fmt.Sprintf("call#%d %s@tick%d(x%d)", f.Call, faultNames[f.Kind], f.At, 1+f.Limit)
 	}
 	return fmt.Sprintf("call#%d %s@probe%d", f.Call, faultNames[f.Kind], f.At)
 }
 
-func (f Fault) Uncatchable() bool { return f.Kind == FIntr || f.Kind == FTickIntr || f.Kind == FDepth }
+func (f Fault) Uncatchable() bool {
+	return f.Kind == FIntr || f.Kind == FTickIntr || f.Kind == FDepth || f.Kind == FAsyncIntr
+}
 
 var errSentinel = errors.New("sentinel-go-error")
 
@@ -99,6 +102,9 @@ type Host struct {
 	firedNest  int
 	intrVal    *intrPayload
 	preExc     error // an *Exception obtained from the runtime earlier, re-thrown by FThrowExc
+
+	wd        [2]*watchdog // simulated interrupting goroutines (only when the engine asks for them)
+	wdPayload [2]*intrPayload
 
 	nestDepth int // native->JS nesting depth right now
 	inJob     bool
@@ -127,6 +133,15 @@ func (h *Host) tick() {
 		h.intrVal = &intrPayload{id: int(f.At)}
 		h.rt.Interrupt(h.intrVal)
 	}
+	if f := h.fault; f != nil && f.Kind == FAsyncIntr && !h.fired && h.ticks-1 == f.At {
+		h.fire()
+		h.intrVal = h.wdPayload[0]
+		h.wd[0].release()
+		if f.Limit > 0 {
+			h.intrVal = h.wdPayload[1]
+			h.wd[1].release()
+		}
+	}
 	if h.ticks > h.maxTicks {
 		panic(&abortRun{why: "tick budget exceeded"})
 	}
@@ -153,7 +168,7 @@ func (h *Host) probeFault(site int, reflectStyle bool) error {
 		h.extra(h, site)
 	}
 	f := h.fault
-	if f == nil || h.fired || f.Kind == FTickIntr || f.Kind == FDepth || f.At != k {
+	if f == nil || h.fired || f.Kind == FTickIntr || f.Kind == FAsyncIntr || f.Kind == FDepth || f.At != k {
 		return nil
 	}
 	h.fire()
@@ -240,4 +255,23 @@ func (h *Host) compile(name, src string) (*goja.Program, error) {
 	}
 	h.progs[src] = p
 	return p, nil
+}
+
+// startWatchdogs creates the simulated interrupting goroutines. Their payloads are published by the go statement.
+func (h *Host) startWatchdogs() {
+	for i := range h.wd {
+		p := &intrPayload{id: 7000 + i}
+		rt := h.rt
+		h.wdPayload[i] = p
+		h.wd[i] = startWatchdog(func() { rt.Interrupt(p) })
+	}
+}
+
+func (h *Host) stopWatchdogs() {
+	for i := range h.wd {
+		if h.wd[i] != nil {
+			h.wd[i].shutdown()
+			h.wd[i] = nil
+		}
+	}
 }
